@@ -37,7 +37,7 @@ ACK_OPTS = ["ack-ok", "no-ack"]
 # events the environment may inject at a quiescent point (option 0 = let time pass to the next timer)
 Q_EVENTS = ["next-timer", "server-disconnect(own-channel)", "server-disconnect(other-channel)", "user-send", "user-disconnect", "out-of-order-frame", "transport-lost", "+0.5s"]
 # events injectable between two loop iterations while tasks are still runnable
-I_EVENTS = ["-", "server-disconnect(own-channel)", "transport-lost"]
+I_EVENTS = ["-", "server-disconnect(own-channel)", "transport-lost", "out-of-order-frame"]
 
 
 class SecureGw:
@@ -239,8 +239,9 @@ def make(kind: str, auto_reconnect: bool, steps: int, iter_injection: bool, fami
                     if guard > 5000:
                         viols.append(("livelock", f"ready queue never drains; events={events}"))
                         return
-                    if iter_injection and loop._ready and not user["disconnect_called"] and ch.spent < 3:
-                        opts = I_EVENTS if tcp else I_EVENTS[:2]
+                    # (also while the user's disconnect() is still waiting for its DisconnectResponse)
+                    if iter_injection and loop._ready and (not user["disconnect_called"] or user["disconnected_at"] is None) and ch.spent < 3:
+                        opts = I_EVENTS[:3] if tcp else I_EVENTS[:2] + I_EVENTS[3:]
                         c = ch.choose("iter", len(opts))
                         if c:
                             inject(opts[c])
@@ -252,7 +253,10 @@ def make(kind: str, auto_reconnect: bool, steps: int, iter_injection: bool, fami
                 check_invariants("quiescent")
                 check_quiescent(f"step {step}")
                 ch.state((xknx.connection_manager.state.name, tunnel.communication_channel is not None, reconnect_tasks(), user["disconnect_called"], len(loop.live_tasks())))
-                if user["disconnect_called"]:
+                if user["disconnect_called"] and user["disconnected_at"] is None:
+                    # disconnect() is waiting for the gateway's DisconnectResponse: the environment goes on
+                    opts = ["next-timer", "server-disconnect(own-channel)"] + (["transport-lost"] if tcp else ["out-of-order-frame"])
+                elif user["disconnect_called"]:
                     opts = ["next-timer"]
                 elif family == "silent":
                     opts = ["next-timer", "user-disconnect", "user-send"] + (["transport-lost"] if tcp else [])
